@@ -497,6 +497,114 @@ mod scaled {
         }
     }
 
+    /// C08 at the layer level: compression over encryption over raw where some chunks of the
+    /// encrypted wire do not verify (a tag byte altered): the inner error leaves the compression
+    /// reader in its `Empty` state; the history continues with reads and seeks of every kind
+    /// (stream lengths that are multiples of the block size and seeks to exactly the end
+    /// included). Oracle: no panic, and every successful read returns the bytes written at the
+    /// position the reader reports. (No model comparison: the model's decoder is a function of
+    /// the whole compressed block, the real one streams, so the model reports the inner error
+    /// at the seek that creates the decompressor and the code at the first read that reaches
+    /// the unverifiable chunk — CompLayer.v says so at its head.)
+    pub fn c08_stack_cases(rng: &mut Rng, tier: &str, out: &mut Out) {
+        let bl = block();
+        let (ch, tg) = (crate::enc::chunk() as usize, crate::enc::tag() as usize);
+        let n = if tier == "thorough" { 900 } else { 220 };
+        for i in 0..n {
+            let hl = *rng.pick(&[0usize, 5]);
+            let len = match rng.below(4) {
+                0 | 1 => rng.range(1, 3) * bl,
+                2 => (rng.below(4) * bl) as u64 + rng.below(5),
+                _ => rng.below(3 * bl + 20),
+            };
+            let class = rng.below(3) as usize;
+            let plain = gen_plain(rng, class, len as usize);
+            let piece = *rng.pick(&[0usize, 7, 100, 256, 300]);
+            let level = *rng.pick(&[1u32, 5]);
+            let header = rng.bytes(hl);
+            let mut w = Box::new(CompressionLayerWriter::new(
+                Box::new(
+                    EncryptionLayerWriter::new(Box::new(RawLayerWriter::new(header.clone())), &EncryptionConfig::verif_new(KEY, NONCE)).unwrap(),
+                ),
+                &CompressionConfig::verif_new(level),
+            ));
+            write_pieces(&mut w, &plain, piece);
+            w.finalize().unwrap();
+            let mut arch = w.into_raw();
+            let compwire = comp_layer_bytes(&plain, piece, level);
+            // alter the last tag byte of 1-2 chunks (never the one holding the compression footer
+            // alone: the reader must still open in most cases; when it does not, both sides say so)
+            let nch = (compwire.len() + ch - 1) / ch;
+            let mut offs: Vec<u64> = Vec::new();
+            for _ in 0..rng.range(1, 2) {
+                let j = rng.below(nch.max(1) as u64) as usize;
+                let clen = (compwire.len() - j * ch).min(ch);
+                let o = j * (ch + tg) + clen + tg - 1;
+                if o < arch.len() - hl && !offs.contains(&(o as u64)) {
+                    offs.push(o as u64);
+                    arch[hl + o] ^= 1;
+                }
+            }
+            let mut ops = gen_ops(rng, len, bl, 20, 3 * bl);
+            // explicit seeks to exactly the end, in both spellings, after something else has run
+            let at = rng.range(1, ops.len() as u64) as usize;
+            ops.insert(at, if rng.below(2) == 0 { vec![1, len, 0] } else { vec![3, 0, 0] });
+            ops.push(vec![1, len, 0]);
+            ops.push(vec![0, 7, 0]);
+            let open = || -> Result<CompressionLayerReader<'static, Cursor<Vec<u8>>>, String> {
+                let mut raw = RawLayerReader::new(Cursor::new(arch.clone()));
+                let mut hb = vec![0u8; hl];
+                raw.read_exact(&mut hb).map_err(|e| e.to_string())?;
+                raw.reset_position().map_err(|e| e.to_string())?;
+                let enc = EncryptionLayerReader::new(Box::new(raw), &EncryptionReaderConfig::verif_new(KEY, NONCE, false))
+                    .map_err(|e| format!("{e:?}"))?;
+                let mut r = CompressionLayerReader::new(Box::new(enc)).map_err(|e| format!("{e:?}"))?;
+                r.initialize().map_err(|e| format!("{e:?}"))?;
+                Ok(r)
+            };
+            let opened = crate::util::catch(open);
+            let (rows, note) = match opened {
+                Err(p) => (vec![vec![2u64]], Some(format!("opening panicked: {p}"))),
+                Ok(Err(_)) => (vec![vec![1u64]], None),
+                Ok(Ok(mut r)) => {
+                    let mut rows = vec![{
+                        let mut v = vec![0u64];
+                        v.extend(r.sizes_info.as_ref().map(|s| s.compressed_sizes.clone()).unwrap_or_default().iter().map(|x| *x as u64));
+                        v
+                    }];
+                    rows.extend(run_ops(&mut r, &ops));
+                    let mut note = if rows.iter().any(|r| r == &vec![2u64]) {
+                        Some(format!("a call on the compression reader over an encrypted stream with an unverifiable chunk panicked (operation {} of the history)", rows.len() - 1))
+                    } else {
+                        None
+                    };
+                    for (op, row) in ops.iter().zip(rows.iter().skip(1)) {
+                        if op[0] == 0 && row.len() >= 3 && row[0] == 0 && row[2] > 0 {
+                            let end = (row[2] - 1) as usize;
+                            let got: Vec<u8> = row[3..].iter().map(|x| *x as u8).collect();
+                            if end > plain.len() || got.len() > end || plain[end - got.len()..end] != got[..] {
+                                note = Some(format!("a read that succeeded returned {} bytes that are not the bytes written before position {end}", got.len()));
+                            }
+                        }
+                    }
+                    (rows, note)
+                }
+            };
+            let errs = rows.iter().filter(|r| r.first() == Some(&1)).count();
+            out.case(&Case {
+                id: format!("c08-stack-{i}"),
+                model_fn: "",
+                args: vec![],
+                imp: json!([]),
+                oracle_ok: note.is_none(),
+                oracle_msg: note.unwrap_or_default(),
+                class: format!("stack-bad {} errors={}", len_class(len, bl), errs.min(3)),
+                nontrivial: errs > 0,
+                meta: json!({"len": len, "arch_len": arch.len(), "offs": offs, "header": hl}),
+            });
+        }
+    }
+
     /// The writer's block roll-over: single `write` calls of chosen sizes (0 = empty buffer),
     /// then finalize; observed: bytes accepted per call, number of compressed sizes and
     /// last_block_size in the footer.  Oracle: the blocks, decoded with the brotli crate, give
